@@ -4,6 +4,7 @@ Totality over the enumerated language of PAT_EVENT_CODE; ordering clauses on all
 the sorter on all short lists with repeated and missing disciplines."""
 import itertools
 from vlib import common, rxmc
+from vlib import orderpass
 from vlib.common import Report, Violation, HarnessError, Acc, pmap, merge
 
 PID = 'C10'
@@ -256,6 +257,11 @@ def run(tier):
                         '(SC, LH, SH, 2MT..) may rank 1 or 2', 'relay legs with K/M suffix are not compared by distance (statement silent on the unit)']
     if len(L) < 20000 or len(S) < 500:
         raise HarnessError('vacuous: %d codes, %d canonical' % (len(L), len(S)))
+    U = 'athlib.utils:'
+    codes = ['100', '100m', '100M', '10M', '10K', '10k', '110H', '110H106.7cm', '400H', '400LH', '3000SC', '2000SC84cm', '4x100', '4X100', '4x400', 'MILE', 'mile', '1MILE', 'HM', 'MAR',
+             '3000W', '20KW', 'HJ', 'hj', 'PV', 'SP', 'SP7.26K', 'DT1.5K', 'JT800', 'WT', 'DEC', 'HEP', 'PEN', '1HR', '24HR', 'XC', None, '', 'garbage']
+    oc = [(U + 'discipline_sort_key', (c,)) for c in codes] + [(U + 'get_distance', (c,)) for c in codes if c] + [(U + 'text_discipline_sort_key', (c,)) for c in codes[:12]]
+    orderpass.part(rep, oc, 'sort-key call-order pass')
     return rep.finish()
 
 
